@@ -1124,6 +1124,69 @@ def scalarise_records(fn: ast.AST, records: dict[str, list[str]], classes: dict 
     return done
 
 
+def split_conditional_returns(fi: FuncInfo) -> FuncInfo:
+    """view of fi in which `return E(... A if c else B ...)` - every conditional expression of the statement testing the same c -
+    is `if c: return E(... A ...) else: return E(... B ...)`; a c that is a local bound once to a comparison stands for that
+    comparison when nothing it reads is written in between (single exit with a conditional value -> one return per case)"""
+    node = clone(fi.node)
+    for parent in ast.walk(node):
+        for child in ast.iter_child_nodes(parent):
+            child._parent = parent  # type: ignore[attr-defined]
+    stores: dict[str, list[ast.AST]] = {}
+    for n in walk_no_nested(node):
+        if isinstance(n, ast.Name) and isinstance(n.ctx, (ast.Store, ast.Del)):
+            stores.setdefault(n.id, []).append(n)
+    changed = False
+    for blk_owner in list(ast.walk(node)):
+        for f in ("body", "orelse", "finalbody"):
+            blk = getattr(blk_owner, f, None)
+            if not (isinstance(blk, list) and blk and isinstance(blk[0], ast.stmt)):
+                continue
+            out: list[ast.stmt] = []
+            for st in blk:
+                ifexps = [x for x in ast.walk(st) if isinstance(x, ast.IfExp)] if isinstance(st, ast.Return) and st.value is not None else []
+                tests = {ast.unparse(x.test) for x in ifexps}
+                if len(tests) != 1 or any(isinstance(x, (ast.Lambda, ast.ListComp, ast.GeneratorExp, ast.SetComp, ast.DictComp)) for x in ast.walk(st)):
+                    out.append(st)
+                    continue
+                test: ast.AST = clone(ifexps[0].test)
+                if isinstance(test, ast.Name) and len(stores.get(test.id, [])) == 1:
+                    d = getattr(stores[test.id][0], "_parent", None)
+                    if isinstance(d, ast.Assign) and len(d.targets) == 1 and isinstance(d.value, ast.Compare) and d in blk and blk.index(d) < blk.index(st):
+                        between = blk[blk.index(d) + 1: blk.index(st)]
+                        read = {x.id for x in ast.walk(d.value) if isinstance(x, ast.Name)}
+                        if not any(isinstance(x, ast.Name) and isinstance(x.ctx, ast.Store) and x.id in read for b in between for x in ast.walk(b)):
+                            test = clone(d.value)
+
+                def pick(n, which: str):
+                    if isinstance(n, ast.IfExp):
+                        return pick(getattr(n, which), which)
+                    if isinstance(n, ast.AST):
+                        new = type(n)()
+                        for fld in n._fields:
+                            if hasattr(n, fld):
+                                setattr(new, fld, pick(getattr(n, fld), which))
+                        for a in ("lineno", "col_offset", "end_lineno", "end_col_offset"):
+                            if hasattr(n, a):
+                                setattr(new, a, getattr(n, a))
+                        return new
+                    if isinstance(n, list):
+                        return [pick(x, which) for x in n]
+                    return n
+
+                i = ast.If(test=test, body=[pick(st, "body")], orelse=[pick(st, "orelse")])
+                ast.fix_missing_locations(ast.copy_location(i, st))
+                out.append(i)
+                changed = True
+            setattr(blk_owner, f, out)
+    if not changed:
+        return fi
+    for parent in ast.walk(node):
+        for child in ast.iter_child_nodes(parent):
+            child._parent = parent  # type: ignore[attr-defined]
+    return replace(fi, node=node)
+
+
 def _split_walrus_ifs(stmts: list[ast.stmt], is_helper_call: Callable[[ast.Call], bool]) -> list[ast.stmt]:
     """`if (x := h(..)) is None: ...` -> `x = h(..)` ; `if x is None: ...` when the walrus is what the test evaluates first (so it is
     evaluated exactly once, unconditionally, before anything else of the statement) and h is a helper that is read in place"""
